@@ -287,10 +287,20 @@ def rmax (a b : Rat) : Rat := if a < b then b else a
 def inWindow (w : Int) (l : List Rat) : Bool :=
   l.all fun t => let a := ratAbs t; a == 0 || (pow2 (-w) ≤ a && a ≤ pow2 w)
 
-/-- C06.  `win`: judge only data whose magnitudes (coordinates, gaps, ordinate differences) lie in 2^±300, the range in
-which no intermediate of the construction (dx, dy, dy/dx, slope·x0) can overflow or underflow; outside it the
-implementation is known not to satisfy the literal statement (known_findings.json), and the bit-exact correspondence
-is what is checked there. -/
+/-- The range in which the monitor judges `linear` (forced abscissae `fx`, ordinates `fy`): raw data, gaps and ordinate
+differences in 2^±1000, every non-zero slope dy/dx and every product slope·x0 in 2^±1000.  Outside it (e.g. x1−x0
+overflowing) the implementation is known to violate the literal statement (known_findings.json). -/
+def linearWindow (fx fy : List Rat) : Bool :=
+  let lo := pow2 (-1000)
+  let hi := pow2 1000
+  let inR (t : Rat) : Bool := let a := ratAbs t; a == 0 || (lo ≤ a && a ≤ hi)
+  fx.all inR && fy.all inR
+  && (List.zip (List.zip fx fx.tail) (List.zip fy fy.tail)).all fun ((x0, x1), (y0, y1)) =>
+      inR (x1 - x0) && inR (y1 - y0)
+      && (x1 == x0 || (inR ((y1 - y0) / (x1 - x0)) && inR ((y1 - y0) / (x1 - x0) * x0) && inR ((y1 - y0) / (x1 - x0) * x1)))
+
+/-- C06.  `win`: judge only data inside `linearWindow`; outside it the implementation is known not to satisfy the literal
+statement (known_findings.json), and the bit-exact correspondence is what is checked there. -/
 def linear (ks : List (Knot FX)) (impl : Out) (win : Bool := true) : Option String :=
   if ks.length < 2 then (match impl with | .panic => none | _ => some "fewer than 2 knots must be rejected")
   else
@@ -303,7 +313,7 @@ def linear (ks : List (Knot FX)) (impl : Out) (win : Bool := true) : Option Stri
       -- finite data inside the window must give finite coefficients
       (match xs.mapM F64.toRat?, ys.mapM F64.toRat? with
        | some fx, some fy =>
-         if (!win || inWindow 300 (fx ++ fy ++ (List.zip fx fx.tail).map (fun (a, b) => b - a) ++ (List.zip fy fy.tail).map (fun (a, b) => b - a)))
+         if (!win || linearWindow (fx.tail.foldl (fun acc x => acc ++ [rmax (acc.getLast?.getD x) x]) [fx.head!]) fy)
          then some "non-finite coefficient or breakpoint for finite knots" else none
        | _, _ => none)
     | some xs, some ys, some segs =>
@@ -315,8 +325,7 @@ def linear (ks : List (Knot FX)) (impl : Out) (win : Bool := true) : Option Stri
       match forced.mapM F64.toRat?, ys.mapM F64.toRat? with
       | some fx, some fy =>
         let rows := List.zip (List.zip (List.zip fx fx.tail) (List.zip fy fy.tail)) (List.zip (List.zip forced forced.tail) segs)
-        let mags := fx ++ fy ++ (List.zip fx fx.tail).map (fun (a, b) => b - a) ++ (List.zip fy fy.tail).map (fun (a, b) => b - a)
-        if win && !inWindow 300 mags then none else
+        if win && !linearWindow fx fy then none else
         rows.findSome? fun (((x0, x1), (y0, y1)), ((f0, f1), (_, cs))) =>
           let dx := F64.sub f1 f0
           let narrow := F64.lt dx F64.epsilon
@@ -349,10 +358,37 @@ def quadMinSigned (q : List Rat) (a b sg : Rat) : Rat :=
       if a < v && v < b && f v < m then f v else m
   | _ => m
 
-/-- C04 + C05.  `win`: judge only data whose magnitudes (coordinates, gaps, ordinate differences) lie in 2^±150, the
-range in which no intermediate of the construction (secant slopes and their product, reciprocals, dx², dx³, x0³·d) can
-overflow or underflow; outside it the implementation is known not to satisfy the literal statement
-(known_findings.json), and the bit-exact correspondence is what is checked there. -/
+/-- The range in which the monitor judges `constrained_spline` (strictly increasing abscissae assumed): no intermediate
+of the construction can overflow, and none can underflow in a way that matters -
+raw data, gaps and ordinate differences in 2^±1000; every non-zero secant slope, every non-zero product of adjacent
+secant slopes and its reciprocal in 2^±1000; per interval, with M = |s|+|f0|+|f1| (exact Kruger slopes) and
+X = max|x|: dx², dx³ ≥ 2^-1000, X² ≤ 2^1000 (the bare products x0·x0, x1·x1, x1·x0 the code forms) and
+M/dx²·(1+X+X²+X³) ≤ 2^1000 (the monomial coefficients d, c, b and the products d·x0³, c·x0², b·x0), and the tolerance of the interval ≥ 2^-900 (so that errors of subnormal size are negligible).
+Outside this range the implementation is known to violate the literal statement (known_findings.json). -/
+def splineWindow (kr : List (Rat × Rat)) : Bool :=
+  let lo := pow2 (-1000)
+  let hi := pow2 1000
+  let inR (t : Rat) : Bool := let a := ratAbs t; a == 0 || (lo ≤ a && a ≤ hi)
+  let pairs := List.zip kr kr.tail
+  let sec := pairs.map fun (a, b) => (b.2 - a.2) / (b.1 - a.1)
+  let mid := (List.zip (List.zip kr kr.tail) kr.tail.tail).map fun ((a, b), c) => fdxRat a b c
+  let f0 := (3 / 2 : Rat) * sec.head! - mid.head! / 2
+  let fn := (3 / 2 : Rat) * sec.getLast! - mid.getLast! / 2
+  let fall := f0 :: mid ++ [fn]
+  kr.all (fun k => inR k.1 && inR k.2)
+  && pairs.all (fun (a, b) => inR (b.1 - a.1) && inR (b.2 - a.2))
+  && sec.all inR
+  && (List.zip sec sec.tail).all (fun (s, t) => inR (s * t) && inR (s + t))
+  && fall.all inR
+  && (List.zip (List.zip pairs (List.zip fall fall.tail)) sec).all fun (((k0, k1), (e0, e1)), s) =>
+      let dx := k1.1 - k0.1
+      let X := rmax (ratAbs k0.1) (ratAbs k1.1)
+      let M := ratAbs s + ratAbs e0 + ratAbs e1
+      lo ≤ dx * dx * dx && X * X ≤ hi && M / (dx * dx) * (1 + X + X * X + X * X * X) ≤ hi
+      && (let t := ratAbs k0.2 + ratAbs k1.2 + M * (dx + X); t == 0 || pow2 (-900) ≤ t)
+
+/-- C04 + C05.  `win`: judge only data inside `splineWindow`; outside it the implementation is known not to satisfy the
+literal statement (known_findings.json), and the bit-exact correspondence is what is checked there. -/
 def spline (ks : List (Knot FX)) (impl : Out) (win : Bool := true) : Option String :=
   if ks.length < 3 then (match impl with | .panic => none | _ => some "fewer than 3 knots must be rejected")
   else
@@ -364,7 +400,7 @@ def spline (ks : List (Knot FX)) (impl : Out) (win : Bool := true) : Option Stri
     | some xs, some kr, some segs =>
       if (segs.map (·.1)) != xs.tail then some "segment ends are not the right abscissae verbatim" else
       if !(List.zip kr kr.tail).all (fun (a, b) => a.1 < b.1) then none else
-      if win && !inWindow 150 (kr.map (·.1) ++ kr.map (·.2) ++ (List.zip kr kr.tail).map (fun (a, b) => b.1 - a.1) ++ (List.zip kr kr.tail).map (fun (a, b) => b.2 - a.2)) then none else
+      if win && !splineWindow kr then none else
       let n := kr.length
       -- exact slopes at every knot
       let mid := (List.zip (List.zip kr kr.tail) kr.tail.tail).map fun ((a, b), c) => fdxRat a b c
@@ -403,7 +439,7 @@ def spline (ks : List (Knot FX)) (impl : Out) (win : Bool := true) : Option Stri
           then some "first derivative jumps at an interior knot" else none
     | some _, some kr, none =>
       -- the data are finite: a NaN / infinite coefficient for strictly increasing abscissae is a violation
-      if win && !inWindow 150 (kr.map (·.1) ++ kr.map (·.2) ++ (List.zip kr kr.tail).map (fun (a, b) => b.1 - a.1) ++ (List.zip kr kr.tail).map (fun (a, b) => b.2 - a.2)) then none else
+      if win && !((List.zip kr kr.tail).all (fun (a, b) => a.1 < b.1) && splineWindow kr) then none else
       if (List.zip kr kr.tail).all (fun (a, b) => a.1 < b.1) then some "non-finite coefficient for finite knots with strictly increasing abscissae"
       else none
     | _, _, _ => none
